@@ -96,6 +96,8 @@ def compare(case, model, impl):
 
 def parse_steps(line):
     steps = []
+    if not line.strip():
+        return steps
     for s in line.split(";"):
         if s == "PANIC":
             steps.append(None)
